@@ -225,3 +225,60 @@ Proof.
   rewrite !P. apply shifted_ok.
 Qed.
 End Shift.
+
+(* ---------- interval + precise distribution under no dependence assumption (Frechet) ---------- *)
+Lemma map2_repeat_l {A B C} (f : A -> B -> C) a : forall (l : list B) k, length l = k -> map2 f (repeat a k) l = map (f a) l.
+Proof. induction l as [|b l IH]; intros k H; subst k; cbn [length repeat map2 map]; [reflexivity|]. f_equal. apply IH; reflexivity. Qed.
+Lemma maxl_shift (a : R) (l : list R) : l <> [] -> maxl RN (map (Rplus a) l) = a + maxl RN l.
+Proof. intros Hne. apply Rle_antisym.
+  - apply maxl_le_all; [intro E; apply map_eq_nil in E; contradiction|]. intros v Hv. apply in_map_iff in Hv. destruct Hv as (x & <- & Hx). pose proof (maxl_ge l x Hx). lra.
+  - pose proof (maxl_in l Hne) as Hin. apply maxl_ge. apply in_map. exact Hin. Qed.
+Lemma minl_shift (a : R) (l : list R) : l <> [] -> minl RN (map (Rplus a) l) = a + minl RN l.
+Proof. intros Hne. apply Rle_antisym.
+  - pose proof (minl_in l Hne) as Hin. apply minl_le. apply in_map. exact Hin.
+  - apply minl_ge_all; [intro E; apply map_eq_nil in E; contradiction|]. intros v Hv. apply in_map_iff in Hv. destruct Hv as (x & <- & Hx). pose proof (minl_le l x Hx). lra. Qed.
+Lemma maxl_rev (l : list R) : l <> [] -> maxl RN (rev l) = maxl RN l.
+Proof. intros Hne. assert (Hr : rev l <> []) by (intro E; apply (f_equal (@rev R)) in E; rewrite rev_involutive in E; contradiction).
+  apply Rle_antisym; (apply maxl_le_all; [assumption|]; intros v Hv; apply maxl_ge); [apply in_rev; exact Hv|apply -> in_rev; exact Hv]. Qed.
+Lemma minl_rev (l : list R) : l <> [] -> minl RN (rev l) = minl RN l.
+Proof. intros Hne. assert (Hr : rev l <> []) by (intro E; apply (f_equal (@rev R)) in E; rewrite rev_involutive in E; contradiction).
+  apply Rle_antisym; (apply minl_ge_all; [assumption|]; intros v Hv; apply minl_le); [apply -> in_rev; exact Hv|apply in_rev; exact Hv]. Qed.
+Lemma maxl_prefix_sorted (q : list R) i : Rsorted q -> (i < length q)%nat -> maxl RN (firstn (S i) q) = nth i q 0.
+Proof. intros Sq Hi. assert (Ne : firstn (S i) q <> []) by (intro E; apply (f_equal (@length R)) in E; rewrite firstn_length in E; cbn [length] in E; lia).
+  apply Rle_antisym.
+  - apply maxl_le_all; [exact Ne|]. intros v Hv. destruct (In_nth _ _ 0 Hv) as (j & Hj & <-). rewrite firstn_length in Hj. rewrite nth_firstn_lt by lia. apply Rsorted_nth; auto. lia.
+  - apply maxl_ge. rewrite <- (nth_firstn_lt q 0 (S i) i) by lia. apply nth_In. rewrite firstn_length. lia. Qed.
+Lemma minl_suffix_sorted (q : list R) i : Rsorted q -> (i < length q)%nat -> minl RN (skipn i q) = nth i q 0.
+Proof. intros Sq Hi. assert (Ne : skipn i q <> []) by (intro E; apply (f_equal (@length R)) in E; rewrite skipn_length in E; cbn [length] in E; lia).
+  apply Rle_antisym.
+  - apply minl_le. replace (nth i q 0) with (nth 0 (skipn i q) 0) by (rewrite nth_skipn_add; f_equal; lia). apply nth_In. rewrite skipn_length. lia.
+  - apply minl_ge_all; [exact Ne|]. intros v Hv. destruct (In_nth _ _ 0 Hv) as (j & Hj & <-). rewrite skipn_length in Hj. rewrite nth_skipn_add. apply Rsorted_nth; auto. lia. Qed.
+
+Section ShiftF.
+Variable steps : nat.
+Variables plo phi : R.
+Variable a : R * R.
+Variable q : list R.
+Hypothesis Wa : wfp a.
+Hypothesis Lq : length q = steps.
+Hypothesis Sq : Rsorted q.
+Theorem shift_frechet : padd RN steps plo phi DF (embed steps a) (q, q) = Ok (shifted a q).
+Proof.
+  unfold padd. cbn [dep_op nadd RN fst snd]. unfold embed, frechet_op; cbn [fst snd T RN]. rewrite repeat_length. change (nsort RN) with Rsort.
+  assert (L : map (frechet_left RN Rplus (repeat (fst a) steps) q) (seq 0 steps) = map (Rplus (fst a)) q).
+  { rewrite <- (map_nth_seq_R q) at 2. rewrite map_map, Lq. apply map_ext_in. intros i Hi. apply in_seq in Hi. unfold frechet_left. cbn [T RN].
+    rewrite firstn_repeat_c by lia. rewrite map2_repeat_l by (rewrite rev_length, firstn_length; lia).
+    assert (Ne : firstn (S i) q <> []) by (intro E; apply (f_equal (@length R)) in E; rewrite firstn_length in E; cbn [length] in E; lia).
+    rewrite maxl_shift by (intro E; apply (f_equal (@rev R)) in E; rewrite rev_involutive in E; contradiction).
+    rewrite maxl_rev by exact Ne. rewrite maxl_prefix_sorted by (auto; lia). reflexivity. }
+  assert (R' : map (frechet_right RN Rplus (repeat (snd a) steps) q) (seq 0 steps) = map (Rplus (snd a)) q).
+  { rewrite <- (map_nth_seq_R q) at 2. rewrite map_map, Lq. apply map_ext_in. intros i Hi. apply in_seq in Hi. unfold frechet_right. cbn [T RN].
+    rewrite skipn_repeat_c. rewrite map2_repeat_l by (rewrite rev_length, skipn_length; lia).
+    assert (Ne : skipn i q <> []) by (intro E; apply (f_equal (@length R)) in E; rewrite skipn_length in E; cbn [length] in E; lia).
+    rewrite minl_shift by (intro E; apply (f_equal (@rev R)) in E; rewrite rev_involutive in E; contradiction).
+    rewrite minl_rev by exact Ne. rewrite minl_suffix_sorted by (auto; lia). reflexivity. }
+  assert (S1 : forall c, Rsorted (map (Rplus c) q)) by (intros; apply map_mono_sorted; auto; intros; lra).
+  match goal with |- mk_staircase _ _ _ _ (Rsort (Rsort ?x)) (Rsort (Rsort ?y)) = _ => replace x with (map (Rplus (fst a)) q) by (symmetry; exact L); replace y with (map (Rplus (snd a)) q) by (symmetry; exact R') end.
+  rewrite !Rsort_id; auto; try apply Rsort_sorted. apply (shifted_ok steps plo phi a q Wa Lq Sq).
+Qed.
+End ShiftF.
